@@ -6,6 +6,7 @@ import (
 	"math"
 	"net/http"
 	"strconv"
+	"strings"
 	"testing"
 
 	"github.com/issue9/mux/v9"
@@ -40,6 +41,13 @@ var edgeValues = []string{"", "0", "1", "+1", "-0", "-1", "9223372036854775807",
 var keyPool = []string{"", "a", "b", "id", "x", "-x", "k1", "k2", "k3"}
 
 func genStr(t *rapid.T, label string, pool []string) string {
+	if label == "val" && rapid.IntRange(0, 7).Draw(t, label+"Padded") == 0 {
+		// numbers written the long way: a sign, a run of zeros of a drawn length (around and beyond the width of the
+		// widest canonical 64-bit number) and a short body - still what strconv accepts, or just not
+		return rapid.SampledFrom([]string{"", "", "-", "+"}).Draw(t, label+"Sign") +
+			strings.Repeat("0", rapid.SampledFrom([]int{0, 1, 2, 5, 17, 18, 19, 20, 21, 22, 40, 300}).Draw(t, label+"Zeros")) +
+			rapid.SampledFrom([]string{"", "0", "7", "42", "17", "9223372036854775807", "18446744073709551615", "1.5", "1e3", ".5", "x"}).Draw(t, label+"Body")
+	}
 	if rapid.IntRange(0, 9).Draw(t, label+"Mode") < 7 {
 		return rapid.SampledFrom(pool).Draw(t, label)
 	}
@@ -384,7 +392,7 @@ func check(c Case, st *rig.Stats) error {
 }
 
 var stats = rig.NewStats("C20",
-	"rapid draws a history of Set/Delete/Reset/Destroy+NewContext over two live contexts with keys and values from arbitrary strings plus numeric edge cases, interleaved with traffic through the library's own users of the context pool (router hit / 404 / 405 / recovered panic, group hit / miss / recovered panic on the group's not-found path, a handler issuing a nested request) after which two fresh contexts must be distinct from each other and from the live ones, empty and independent; all eleven accessors are compared with a map model and strconv after every step. Non-trivial: a value on which at least one of the four strconv parsers fails and at least one succeeds was set, a context was renewed from the pool after being non-empty, or pool traffic ran between accessor steps; distinct by hash of the whole case",
+	"rapid draws a history of Set/Delete/Reset/Destroy+NewContext over two live contexts with keys and values from arbitrary strings, numeric edge cases and numbers padded with runs of zeros of drawn lengths, interleaved with traffic through the library's own users of the context pool (router hit / 404 / 405 / recovered panic, group hit / miss / recovered panic on the group's not-found path, a handler issuing a nested request) after which two fresh contexts must be distinct from each other and from the live ones, empty and independent; all eleven accessors are compared with a map model and strconv after every step. Non-trivial: a value on which at least one of the four strconv parsers fails and at least one succeeds was set, a context was renewed from the pool after being non-empty, or pool traffic ran between accessor steps; distinct by hash of the whole case",
 	"strconv is the trusted reference")
 
 func TestProp(t *testing.T) { rig.RunProp(t, stats, gen, check) }
